@@ -219,3 +219,52 @@ def f19_block_layout_backjump(case, bucket, detail):
         return False
     nbranch = sum(1 for n in N.recipe_nodes(recipe) if n[0] in ("if", "cond", "assert", "maybe"))
     return nbranch >= 2 and any(c.get("version", 9) < 4 for c in case.get("configs", []))
+
+
+# --------------------------------------------------------------------------- P1 (exit nested in an operand)
+
+_STMT_CHILD = {"seq": None, "if": (2, 3), "cond": None, "while": (2,), "for": (1, 3, 4), "comment": (2,)}
+
+
+def has_operand_nested_exit(recipe) -> bool:
+    """True iff a Return (or a Break/Continue leaving its loop) occurs while an operand of an enclosing operator,
+    call, store, ... is still pending on the stack."""
+
+    def walk(n, pend_ret, pend_loop):
+        t = n[0]
+        if t == "return":
+            if pend_ret:
+                return True
+            return n[1] is not None and walk(n[1], True, True)
+        if t in ("break", "continue"):
+            return pend_loop
+        if t == "seq":
+            return any(walk(x, pend_ret, pend_loop) for x in n[1])
+        if t == "if":
+            return walk(n[1], True, True) or walk(n[2], pend_ret, pend_loop) or (n[3] is not None and walk(n[3], pend_ret, pend_loop))
+        if t == "cond":
+            return any(walk(a[0], True, True) or walk(a[1], pend_ret, pend_loop) for a in n[1])
+        if t == "while":
+            return walk(n[1], True, True) or walk(n[2], pend_ret, False)
+        if t == "for":
+            return walk(n[1], pend_ret, pend_loop) or walk(n[2], True, True) or walk(n[3], pend_ret, False) or walk(n[4], pend_ret, False)
+        if t == "comment":
+            return len(n) > 2 and n[2] is not None and walk(n[2], pend_ret, pend_loop)
+        from .recipe import nodes as N
+
+        kids = N.children(n)
+        # operator / call / store / effect: the first child is evaluated with nothing of this node pending, later
+        # children with the earlier operands pending
+        for i, c in enumerate(kids):
+            if walk(c, pend_ret or i > 0, pend_loop or i > 0):
+                return True
+        return False
+
+    if walk(recipe["main"], False, False):
+        return True
+    return any(walk(r["body"], False, False) for r in recipe.get("routines", []))
+
+
+@predicate("p1_exit_nested_in_operand")
+def p1_exit_nested_in_operand(case, bucket, detail):
+    return isinstance(case, dict) and isinstance(case.get("recipe"), dict) and has_operand_nested_exit(case["recipe"])
